@@ -69,6 +69,14 @@ def _ident(v):
     return v
 
 
+def _validate(vk, name, value):
+    """the validators of the class-features stream (harness/gen.py: `passes`), on real values"""
+    if ((vk == "mod3" and type(value) is int and value % 3 == 0)
+            or (vk == "noz" and type(value) is str and value.startswith("z"))
+            or (vk == "len2" and isinstance(value, (list, tuple, collections.deque)) and len(value) == 2)):
+        raise ValueError(f"{name}: value {value!r} rejected by the validator {vk}")
+
+
 def _mentions(t, ci):
     if isinstance(t, (list, tuple)):
         if len(t) == 2 and t[0] in ("cls", "td") and t[1] == ci:
@@ -199,6 +207,10 @@ class Realised:
 
             return types.new_class(name, (typing.NamedTuple,), {}, body)
         bases = (self.classes[c["base"]],) if c.get("base") is not None else None
+        feats = c.get("features") or {}
+        if feats.get("syntax") or any(f.get("validator") or f.get("explicit_alias") or f.get("takes_self")
+                                      for f in c["fields"] if not f.get("inherited")) or feats.get("eq") is False:
+            return self._make_class_src(ci, c, name, bases, feats)
         if kind == "attrs":
             flds = {}
             for f in c["fields"]:
@@ -247,6 +259,99 @@ class Realised:
                 return dataclasses.make_dataclass(name, flds, bases=bases, frozen=c["frozen"])
             return dataclasses.make_dataclass(name, flds, frozen=c["frozen"])
         raise ValueError(kind)
+
+    def _make_class_src(self, ci, c, name, bases, feats):
+        """the class written as SOURCE (class body + decorator, or make_class for the features that do not need a body):
+        `@attrs.define`, `@attr.s(auto_attribs=True)`, `@dataclasses.dataclass`, with explicit aliases,
+        `Factory(takes_self=True)`, validators, `__attrs_post_init__` / `__post_init__`, ClassVar / InitVar pseudo-fields,
+        class-level kw_only / eq / slots, a hand-written `__init__` that forwards to `__attrs_init__`"""
+        import attr
+        kind = c["kind"]
+        syntax = feats.get("syntax") or ("define" if kind == "attrs" else "dataclass")
+        own = [f for f in c["fields"] if not f.get("inherited")]
+        ns = {"attrs": attrs, "attr": attr, "dataclasses": dataclasses, "typing": typing, "_ident": _ident,
+              "_Base": bases[0] if bases else object}
+        lines = []
+        dec = []
+        if c["frozen"]:
+            dec.append("frozen=True")
+        if feats.get("eq") is False:
+            dec.append("eq=False")
+        if feats.get("kw_only_cls"):
+            dec.append("kw_only=True")
+        if kind == "attrs":
+            dec.append("slots=%r" % bool(c.get("slots", True)))
+            if feats.get("custom_init"):
+                dec.append("init=False")
+            lines.append(("@attrs.define(%s)" if syntax == "define" else "@attr.s(auto_attribs=True, %s)") % ", ".join(dec))
+            fld = "attrs.field" if syntax == "define" else "attr.ib"
+        else:
+            if feats.get("dc_slots"):
+                dec.append("slots=True")
+            lines.append("@dataclasses.dataclass(%s)" % ", ".join(dec))
+            fld = "dataclasses.field"
+        lines.append(f"class {name}(_Base):" if bases else f"class {name}:")
+        for i, (cv, v) in enumerate(feats.get("classvars", [])):
+            ns[f"_CV{i}"] = self.val(v)
+            lines.append(f"    {cv}: typing.ClassVar[typing.Any] = _CV{i}")
+        for i, f in enumerate(own):
+            kw = []
+            d = self._default(f["dflt"], f["ty"])
+            if d is not None:
+                ns[f"_D{i}"] = d[1]
+                if d[0] == "c":
+                    kw.append(f"default=_D{i}")
+                elif kind == "attrs" and f.get("takes_self"):
+                    ns[f"_D{i}"] = attrs.Factory((lambda self, fac=d[1]: fac()), takes_self=True)
+                    kw.append(f"default=_D{i}")
+                else:
+                    kw.append(("factory" if kind == "attrs" else "default_factory") + f"=_D{i}")
+            if not f["init"]:
+                kw.append("init=False")
+            if f.get("kw_only") and not feats.get("kw_only_cls"):
+                kw.append("kw_only=True")
+            if kind == "attrs":
+                if f.get("explicit_alias"):
+                    kw.append("alias=%r" % f["alias"])
+                if f.get("idconv"):
+                    kw.append("converter=_ident")
+                if f.get("validator") and f.get("validator_in") != "post_init":
+                    ns[f"_V{i}"] = (lambda inst, attrib, value, vk=f["validator"]: _validate(vk, attrib.name, value))
+                    kw.append(f"validator=_V{i}")
+            ns[f"_T{i}"] = Final if f.get("bare_final") else self._fty(c, f)
+            lines.append(f"    {f['name']}: _T{i}" + (f" = {fld}({', '.join(kw)})" if kw or kind == "attrs" else ""))
+        ivs = feats.get("initvars", [])
+        for i, (iv, v) in enumerate(ivs):
+            ns[f"_IV{i}"] = self.val(v)
+            lines.append(f"    {iv}: dataclasses.InitVar[int] = dataclasses.field(default=_IV{i}, kw_only=True)")
+        post = [(f["name"], f["validator"]) for f in c["fields"] if f.get("validator") and f.get("validator_in") == "post_init"]
+        if post or ivs:
+            ns["_validate"] = _validate
+            lines.append("    def %s(self%s):" % ("__attrs_post_init__" if kind == "attrs" else "__post_init__",
+                                                  "".join(", " + iv for iv, _ in ivs)))
+            for n, vk in post:
+                lines.append(f"        _validate({vk!r}, {n!r}, self.{n})")
+            lines.append("        pass")
+        if feats.get("custom_init"):
+            # hand-written __init__: the parameters attrs would generate (aliases, declaration order, keyword-only ones
+            # after `*`), forwarded to `__attrs_init__`
+            pos = [f for f in c["fields"] if f["init"] and not f.get("kw_only")]
+            kwo = [f for f in c["fields"] if f["init"] and f.get("kw_only")]
+            sig = ["self"] + [f["alias"] + ("=attrs.NOTHING" if f["dflt"] is not None else "") for f in pos]
+            if kwo:
+                sig += ["*"] + [f["alias"] + ("=attrs.NOTHING" if f["dflt"] is not None else "") for f in kwo]
+            lines.append("    def __init__(%s):" % ", ".join(sig))
+            lines.append("        kw = {k: v for k, v in (%s) if v is not attrs.NOTHING}" %
+                         "".join("(%r, %s), " % (f["alias"], f["alias"]) for f in pos + kwo))
+            lines.append("        self.__attrs_init__(**kw)")
+        if not own and not feats.get("classvars") and not ivs and not post and not feats.get("custom_init"):
+            lines.append("    pass")
+        src = "\n".join(lines) + "\n"
+        exec(compile(src, f"<realised {name}>", "exec", dont_inherit=True), ns)
+        cl = ns[name]
+        cl.__module__ = __name__
+        cl._verif_src = src
+        return cl
 
     # ------------------------------------------------------------------ types
     def ty(self, t):
